@@ -22,9 +22,10 @@ func finalBuffer(env *Env) ([]uint64, bool) {
 }
 
 type c05Facts struct {
-	final  []uint64
-	chain  [][]uint64 // pruned recordings: original, then of every adopted candidate
-	origOK bool
+	final    []uint64
+	chain    [][]uint64 // pruned recordings: original, then of every adopted candidate
+	chainRec [][]uint64 // the same runs as recorded (before pruning)
+	origOK   bool
 }
 
 // c05Oracle checks (a), (b) on one failing run and returns the chain of shrinker states.
@@ -70,7 +71,9 @@ func c05Oracle(c *Ctx, prog *LazyProgram, log *RunLog, assign []KV, devs int, wh
 		return f, false
 	}
 	f.final = fin
-	if !shortlexLE(fin, orig.Pruned) || !shortlexLE(orig.Pruned, orig.Data) {
+	// "never larger than the original": the original is the recording of the failing run; its pruned form is the first
+	// shrinker state. A result above the pruned form is the fallback to a run's own recording (see chainRec below).
+	if !shortlexLE(fin, orig.Data) || !shortlexLE(orig.Pruned, orig.Data) {
 		viol("result-larger-than-original prog="+prog.Name, fmt.Sprintf("original recording %s (pruned %s), minimized result %s", fmtWords(orig.Data), fmtWords(orig.Pruned), fmtWords(fin)))
 	}
 	adopted := adoptedChain(env)
@@ -84,14 +87,19 @@ func c05Oracle(c *Ctx, prog *LazyProgram, log *RunLog, assign []KV, devs int, wh
 	}
 	c.Count("accepted_steps", int64(len(adopted)))
 	if wantChain {
+		// a shrinker state is a pruned recording; when the pruned form of the last run does not fail the same way (what
+		// pruning removed mattered: a rejected attempt that left traces), shrink() falls back to that run's own recording,
+		// so both forms of every state are legitimate results
 		f.chain = append(f.chain, orig.Pruned)
+		f.chainRec = append(f.chainRec, orig.Data)
 		for _, b := range adopted {
 			r, _ := RunBody(prog, full, b)
 			c.R.Evals++
 			f.chain = append(f.chain, r.Pruned)
+			f.chainRec = append(f.chainRec, r.Data)
 		}
 		// the uncut result itself must be the last shrinker state
-		if !equalWords(fin, f.chain[len(f.chain)-1]) {
+		if !equalWords(fin, f.chain[len(f.chain)-1]) && !equalWords(fin, f.chainRec[len(f.chainRec)-1]) {
 			viol("result-is-not-last-accepted-state prog="+prog.Name, fmt.Sprintf("uncut result %s, last accepted state %s", fmtWords(fin), fmtWords(f.chain[len(f.chain)-1])))
 		}
 	}
@@ -114,6 +122,7 @@ func c05Units(tier string, seed int64) []Unit {
 		func() *LazyProgram { return rejectionProgs()[1] },
 		func() *LazyProgram { return rejectionProgs()[2] },
 		func() *LazyProgram { return rejectionProgs()[4] },
+		func() *LazyProgram { return progRejectedAttemptsDecideTheSite() },
 	}
 	nseeds := 4
 	if !quick {
@@ -170,7 +179,7 @@ func c05Units(tier string, seed int64) []Unit {
 							continue
 						}
 						in := false
-						for _, st := range facts.chain {
+						for _, st := range append(append([][]uint64{}, facts.chain...), facts.chainRec...) {
 							if equalWords(st, fj.final) {
 								in = true
 								break
@@ -231,7 +240,7 @@ func c05Units(tier string, seed int64) []Unit {
 							continue
 						}
 						in := false
-						for _, st := range facts.chain {
+						for _, st := range append(append([][]uint64{}, facts.chain...), facts.chainRec...) {
 							if equalWords(st, fj.final) {
 								in = true
 								break
